@@ -584,6 +584,33 @@ def extra_histories(rep):
         check(m, "the source after its copy() was changed", {"kind": "extra", "case": "copy", "build": build})
         if m.session_id_avp.data != b"s;1;2" or not m.has_avp("origin_host_avp"):
             rep.violation("a change made to a copy() reached the source message", {"kind": "extra", "case": "copy", "build": build})
+    # (e) a bulk update whose later key carries a value its AVP class rejects, after an earlier key has changed the size of its AVP
+    from bromelia.avps import ResultCodeAVP
+    from bromelia.messages import CEA
+    for typed in (False, True):
+        for bad in ({"result_code": "not-a-number"}, {"result_code": b"\x00\x01"}, {"origin_realm": 5}):
+            try:
+                if typed:
+                    m = CEA(origin_host="short.example", origin_realm="example", host_ip_address="10.0.0.1")
+                else:
+                    m = DiameterRequest(command_code=272, application_id=4)
+                    m.extend([OriginHostAVP("a.b"), OriginRealmAVP("example"), ResultCodeAVP(2001), UserNameAVP("u")])
+            except BaseException as e:
+                rep.violation(f"building the message for the failing bulk update raised {type(e).__name__}: {e}", {"kind": "extra", "case": "failing-update"})
+                continue
+            replay = {"kind": "extra", "case": "failing-update", "typed": typed, "bad": repr(bad)}
+            upd = {"origin_host": "a-much-longer-origin-host.with.labels.example.org"}
+            upd.update(bad)
+            try:
+                m.update_avps(upd)
+            except BaseException:
+                pass
+            check(m, f"update_avps({sorted(upd)}) whose later value is rejected, on a {'typed CEA' if typed else 'generic request'}", replay)
+            try:
+                m.append(UserNameAVP("later"))
+                check(m, "append after the failing bulk update", replay)
+            except BaseException as e:
+                rep.violation(f"append after a failing bulk update raised {type(e).__name__}: {e}", replay)
     # (d) a bulk operation that is refused part-way (an element that is not an AVP, not the first one): whatever the operation
     # leaves behind, the three views agree, and they still agree after the caller carries on
     for op in ("extend", "avps"):
